@@ -26,9 +26,10 @@ type HistoryCase struct {
 }
 
 type oneshotOut struct {
-	Fingerprints     []string `json:"fingerprints"`
-	GoroutinesBefore int      `json:"goroutines_before"`
-	GoroutinesAfter  int      `json:"goroutines_after"`
+	Fingerprints      []string `json:"fingerprints"`
+	AfterFingerprints []string `json:"after_fingerprints"`
+	GoroutinesBefore  int      `json:"goroutines_before"`
+	GoroutinesAfter   int      `json:"goroutines_after"`
 }
 
 var (
@@ -71,12 +72,17 @@ func oneshotPath(race bool) (string, error) {
 
 // runOneshot executes the helper in a fresh process. exit code and stderr are returned for the caller to judge.
 func runOneshot(race bool, specs []EncSpec, args ...string) (oneshotOut, string, int, error) {
+	return runOneshot2(race, specs, nil, args...)
+}
+
+// runOneshot2 additionally passes calls that the helper executes sequentially after the first phase.
+func runOneshot2(race bool, specs, after []EncSpec, args ...string) (oneshotOut, string, int, error) {
 	var out oneshotOut
 	bin, err := oneshotPath(race)
 	if err != nil {
 		return out, "", -1, err
 	}
-	in, _ := json.Marshal(specs)
+	in, _ := json.Marshal(map[string]any{"specs": specs, "after": after})
 	cmd := exec.Command(bin, args...)
 	cmd.Stdin = bytes.NewReader(in)
 	cmd.Env = append(os.Environ(), "GORACE=halt_on_error=1 exitcode=66")
@@ -179,7 +185,14 @@ func checkC15(t TB, c HistoryCase) c15Outcome {
 		// aliasing probe for the only []byte entry point
 		if s.Fam == "aztec" && err == nil && pv == nil && len(s.Content) > 0 {
 			o.aliasing++
-			buf := append([]byte(nil), s.Content...)
+			// the payload is a sub-slice of a larger buffer: the bytes behind it belong to the caller too
+			const guard = 24
+			whole := make([]byte, len(s.Content)+guard)
+			copy(whole, s.Content)
+			for j := len(s.Content); j < len(whole); j++ {
+				whole[j] = 0xAA
+			}
+			buf := whole[:len(s.Content)]
 			var abc barcode.Barcode
 			var aerr error
 			apv := try(func() {
@@ -194,6 +207,11 @@ func checkC15(t TB, c HistoryCase) c15Outcome {
 			}
 			if !bytes.Equal(buf, s.Content) {
 				failf(t, P, K, c, "call %d: aztec.Encode modified the caller's slice", i)
+			}
+			for j := len(s.Content); j < len(whole); j++ {
+				if whole[j] != 0xAA {
+					failf(t, P, K, c, "call %d: aztec.Encode wrote into the caller's buffer behind the payload (offset +%d became %#02x)", i, j-len(s.Content), whole[j])
+				}
 			}
 			fp1 := enc.Fingerprint(abc, nil, nil)
 			if fp1 != inproc[i] {
